@@ -186,3 +186,26 @@ def abs_to_rel(ms):
             r["t"] = -1
             out.append(r)
     return out
+
+
+def notes_of_abs(ms):
+    """Independent pairing of an absolute message list: per (channel, pitch) strict alternation.
+    Returns (notes [{ch,p,s,e,v}], wellformed)."""
+    open_, notes, ok = {}, [], True
+    # the stored order of equal-tick messages is insertion order; a note-off on a tick precedes a note-on of that tick
+    ms = sorted(ms, key=lambda m: (m["t"], 0 if m["ty"] == "off" else 1))
+    for m in ms:
+        k = (m["ch"], m["p"])
+        if m["ty"] == "on":
+            if k in open_:
+                ok = False
+            open_[k] = (m["t"], m["v"])
+        elif m["ty"] == "off":
+            if k not in open_:
+                ok = False
+                continue
+            s, v = open_.pop(k)
+            notes.append({"ch": m["ch"], "p": m["p"], "s": s, "e": m["t"], "v": v})
+    if open_:
+        ok = False
+    return notes, ok
